@@ -1,0 +1,29 @@
+//go:build verif
+
+package auth
+
+// Contracts for the deductive verifier in /verif (govc). Comment-only file: adds no code.
+
+// validate: store failure or unknown app rejects only in strict mode; a token different from the stored one is
+// Unauthenticated (16); an equal token is admitted.
+//@ func (*Authenticator).validate
+//@   prop C04
+//@   opaque Take
+//@   requires a != nil
+//@   let expect = ret(Take, 0)
+//@   let terr = ret(Take, 1)
+//@   ensures [store-failure-strict] terr != nil && a.strict ==> calls(status.Error, 13, _) == 1 && result == ret(status.Error)
+//@   ensures [store-failure-lenient] terr != nil && !a.strict ==> result == nil
+//@   ensures [wrong-token] terr == nil && expect != token ==> calls(status.Error, 16, _) == 1 && result == ret(status.Error)
+//@   ensures [right-token] terr == nil && expect == token ==> result == nil
+//@   ensures [lookup-by-app] calls(Take) == 1 && arg(Take, 1) == app
+
+// Authenticate: missing metadata, app or token => Unauthenticated without consulting the store.
+//@ func (*Authenticator).Authenticate
+//@   prop C04
+//@   opaque validate
+//@   requires a != nil
+//@   let md = ret(metadata.FromIncomingContext, 0)
+//@   ensures [no-metadata] !ret(metadata.FromIncomingContext, 1) ==> calls(validate) == 0 && calls(status.Error, 16, _) == 1 && result == ret(status.Error)
+//@   ensures [validated] calls(validate) == 1 ==> result == ret(validate) && len(md["app"]) > 0 && len(md["token"]) > 0 && arg(validate, 1) == md["app"][0] && arg(validate, 2) == md["token"][0] && len(md["app"][0]) > 0 && len(md["token"][0]) > 0
+//@   ensures [missing-rejected] calls(validate) == 0 ==> calls(status.Error, 16, _) == 1 && result == ret(status.Error)
